@@ -9,7 +9,9 @@ import (
 	"net"
 	"strconv"
 	"strings"
+	"sync/atomic"
 	"testing"
+	"time"
 
 	"vfkit"
 )
@@ -274,7 +276,68 @@ func TestVf_C20(t *testing.T) {
 			vfAddrCheck(run, hc)
 		}
 	}
+	vfC20Dial(run)
 	if run.NViolations() > 0 {
 		t.Fail()
+	}
+}
+
+// vfC20Dial: what is really dialled. A listener on the IPv6 and on the IPv4 loopback; client and component transports
+// built from several spellings of its address must arrive there when Connect is called (the listener just accepts and
+// closes: Connect fails afterwards, which is beside the point).
+func vfC20Dial(run *vfkit.Run) {
+	for _, lo := range []struct{ network, bind, kind string }{{"tcp6", "[::1]:0", "ipv6"}, {"tcp4", "127.0.0.1:0", "ipv4"}} {
+		ln, err := net.Listen(lo.network, lo.bind)
+		if err != nil {
+			run.Count("loopback_unavailable_"+lo.kind, 1)
+			continue
+		}
+		var accepted int32
+		go func() {
+			for {
+				c, err := ln.Accept()
+				if err != nil {
+					return
+				}
+				atomic.AddInt32(&accepted, 1)
+				c.Close()
+			}
+		}()
+		port := ln.Addr().(*net.TCPAddr).Port
+		var spellings []string
+		if lo.kind == "ipv6" {
+			spellings = []string{fmt.Sprintf("[::1]:%d", port), fmt.Sprintf("[0:0:0:0:0:0:0:1]:%d", port), fmt.Sprintf("[::0001]:%d", port)}
+		} else {
+			spellings = []string{fmt.Sprintf("127.0.0.1:%d", port), fmt.Sprintf("localhost:%d", port)}
+		}
+		for _, addr := range spellings {
+			for _, who := range []string{"client", "component"} {
+				cs := map[string]interface{}{"mode": "dial", "address": addr, "transport": who}
+				run.Case(cs)
+				before := atomic.LoadInt32(&accepted)
+				var tr Transport
+				if who == "client" {
+					tr = NewClientTransport(TransportConfiguration{Address: addr, ConnectTimeout: 1, Domain: "localhost"})
+				} else {
+					tr, err = NewComponentTransport(TransportConfiguration{Address: addr, ConnectTimeout: 1, Domain: "localhost"})
+					if err != nil {
+						run.Violation("C20/component-refuses-tcp", fmt.Sprintf("NewComponentTransport(%q): %v", addr, err), cs)
+						continue
+					}
+				}
+				_, cerr := tr.Connect()
+				if !vfWaitUntil(5*time.Second, func() bool { return atomic.LoadInt32(&accepted) > before }) {
+					if lo.kind == "ipv4" && strings.HasPrefix(addr, "localhost") {
+						run.Inconclusive("localhost-does-not-resolve-to-127.0.0.1")
+						continue
+					}
+					run.Violation("C20/not-dialled:"+lo.kind, fmt.Sprintf("%s transport for %q: Connect returned %v and the listener on that very address saw no connection", who, addr, cerr), cs)
+					continue
+				}
+				run.Count("addresses_really_dialled", 1)
+				run.Nontrivial("dial|" + who + "|" + addr)
+			}
+		}
+		ln.Close()
 	}
 }
